@@ -602,8 +602,9 @@ def codeCfg : Cfg :=
 /-- the code as it is lies in the configuration all theorems above are about (each of the other configurations has an
 explicit violating trace: `dropEarly_breaks`, `verFirst_breaks`, `trOverFrozen_breaks`, `C11.discardReuse_breaks`);
 and a group is inserted into the buffer before its sequence number is published (the order of the model's
-`writeInsert` / `writePublish` steps) -/
-theorem code_is_real : codeCfg = Cfg.real ∧ Gen.ordApplyBeforePublish = true := by decide
+`writeInsert` / `writePublish` steps); and a point read keeps its snapshot registered until it returns (the model's
+readers are registered from their `rSeq` step to their release, which is what bounds `minSeq` of a compaction) -/
+theorem code_is_real : codeCfg = Cfg.real ∧ Gen.ordApplyBeforePublish = true ∧ Gen.ordPointReadsHoldSnapshot = true := by decide
 
 def theorems : List String :=
   ["GoLevel.C05.code_is_real", "GoLevel.C05.pub_monotone", "GoLevel.C05.published_in_hist", "GoLevel.C05.cover_invariant",
